@@ -134,9 +134,11 @@ def run(tier):
     n = 3 if tier == "quick" else 4
     # (i) groupings -- CrossHair
     excl = GC.known_fg_classes(ck, "C01")
-    from gsv import fgsym
+    from gsv import fgsym, groupsym
+    groupsym.run_all(ck, n)
     fgsym.run_obligations(ck, "C01", n, excl, with_orders=True, with_relabel=False, sep_na=None, timeout=300)
-    res = GC.run_conditions(ck, "C01", n, ORDER_CONDS, 150 if tier == "quick" else 1500, excl, ["check_eg_twin", "check_sn_twin"])
+    # CrossHair as second engine on the cheap conditions (N=3)
+    res = GC.run_conditions(ck, "C01", 3, ["check_eg", "check_sn", "check_wthh"], 150, excl, ["check_eg_twin", "check_sn_twin"])
     for cond, (verdict, cex, secs, tail) in sorted(res.items()):
         ck.obligations += 1
         ck.nontrivial.add(cond)
